@@ -390,7 +390,7 @@ def renumber(line, n):
 
 
 def cfg_class(cfg):
-    return "14" if cfg.endswith("14") else "std"
+    return "14" if (cfg.endswith("14") or cfg.startswith("mx-gcc14") or cfg.startswith("mx-clang14")) else "std"
 
 
 def run_family(rep, insts, cases, configs, workdir, model_exe, shard_by_type=True):
